@@ -135,7 +135,7 @@ func loadContracts(L *Loaded) (*ContractSet, []string, error) {
 		}
 		rel := strings.TrimPrefix(strings.TrimPrefix(path, modulePath), "/")
 		repoFile := filepath.Join(L.repoDir, rel, "contracts_verif.go")
-		name := rel
+		name := pkgShort(rel)
 		if name == "" {
 			name = "ociregistry"
 		}
